@@ -50,6 +50,9 @@ pub fn plan(property: &str, tier: &str) -> Option<CheckPlan> {
         "C09" => Some(c09(seed, tier, thorough)),
         "C10" => Some(c10(seed, tier, thorough)),
         "C11" => Some(c11(seed, tier, thorough)),
+        "C12" => Some(c12(seed, tier, thorough)),
+        "C17" => Some(c17(seed, tier, thorough)),
+        "C19" => Some(c19(seed, tier, thorough)),
         _ => None,
     }
 }
@@ -303,5 +306,122 @@ fn c10(seed: u64, tier: &str, thorough: bool) -> CheckPlan {
         required_probes: vec!["timeout_outcomes".into(), "run_after_reset_timeout_succeeded".into(), "sleep_advanced_simulated_time".into(), "clock_jump_runs".into(), "host_advance_runs".into(), "live_runs".into()],
         exhaustive: false,
         extra: json!({"cpu_budget_s_per_scenario": 4.0}),
+    }
+}
+
+fn c12(seed: u64, tier: &str, thorough: bool) -> CheckPlan {
+    let mut jobs = vec![];
+    let envs = if thorough { 16 } else { 4 };
+    let mut scripts = crate::corpus::load_all();
+    if !thorough {
+        // all compile-error scripts, plus a seeded sample of the rest
+        let mut rng = Prng::new(derive(seed, "c12", 0));
+        let (errs, mut oks): (Vec<_>, Vec<_>) = scripts.into_iter().partition(|s| s.expects_compile_error());
+        rng.shuffle(&mut oks);
+        oks.truncate(120);
+        scripts = errs.into_iter().chain(oks.into_iter()).collect();
+        scripts.sort_by(|a, b| a.id.cmp(&b.id));
+    }
+    for s in scripts {
+        if s.expects_violation() {
+            continue;
+        }
+        let mut allow = vec![];
+        if s.allowed("regex") { allow.push(4); }
+        if s.allowed("sleep") { allow.push(5); }
+        jobs.push(job("C12", "text", derive(seed, &s.id, 0), tier, json!({"script": s.id, "envs": envs, "allow": allow})));
+    }
+    for (name, text) in crate::checks::c12::FIXED {
+        jobs.push(job("C12", "text", derive(seed, name, 0), tier, json!({"label": format!("fixed:{name}"), "text": text, "envs": envs * 2})));
+    }
+    for (label, text) in crate::checks::c12::book_examples() {
+        jobs.push(job("C12", "text", derive(seed, &label, 0), tier, json!({"label": label, "text": text, "envs": envs})));
+    }
+    CheckPlan {
+        property: "C12".into(),
+        tier: tier.into(),
+        seed,
+        level: "exploration".into(),
+        jobs,
+        rule: "One evaluation = one compilation of a text (shipped scripts incl. the expected-compile-error ones, every ```xray block of the book, fixed error-provoking texts) \
+               in one simulated process environment: seeded hasher keys for every compile-time hash container, seeded skips of the process-global scope-id counter, \
+               a seeded history of earlier compilations on the thread; accepted programs are then instantiated and main() run under a fixed fault-free scenario. \
+               The first environment is the plain one; every other must agree on acceptance, rendered error text, exported outcome and output bytes. \
+               Distinct = (text, acceptance / error class).".into(),
+        assumptions: vec![
+            "determinism / history-independence half only: totality over arbitrary UTF-8 inputs is input fuzzing and is not decided here".into(),
+            "no runtime exists during compilation, so 'never touches writer/clock/random source' holds by construction and is only recorded".into(),
+        ],
+        opts: SupOpts::default(),
+        required_probes: vec!["compile_time_hash_containers_seeded".into(), "compiled_after_other_compilations".into(), "scope_ids_skipped".into()],
+        exhaustive: false,
+        extra: json!({"environments_per_text": envs}),
+    }
+}
+
+fn c17(seed: u64, tier: &str, thorough: bool) -> CheckPlan {
+    let mut jobs = vec![];
+    let n = if thorough { 6000 } else { 160 };
+    for i in 0..n {
+        jobs.push(job("C17", "histories", derive(seed, "c17hist", i), tier, json!({"count": 10, "layouts": if thorough { 4 } else { 2 }, "max_ops": 40})));
+    }
+    let nf = if thorough { 1500 } else { 60 };
+    for i in 0..nf {
+        jobs.push(job("C17", "faults", derive(seed, "c17fault", i), tier, json!({"max_points": if thorough { 80 } else { 30 }})));
+    }
+    CheckPlan {
+        property: "C17".into(),
+        tier: tier.into(),
+        seed,
+        level: "exploration".into(),
+        jobs,
+        rule: "One evaluation = one generated program that applies a history of 1-40 mapping or set operations (set, set_default, discard, pop, bulk update from generator / other version, \
+               update_from_keys, update_counter, clear, map_values; add, update, discard, remove, clear, | & - ^) over keys 0..11 with hash (k % E) % M and equality k % E (E from 1 to 12, M from 1 = all keys collide \
+               to 1000; plus the built-in int hash), bases chosen among all earlier versions, and then prints len / lookup of every key / values / entries / sorted key classes / contains / get / subset relations for every version. \
+               Output is compared line by line with an association-list model over equivalence classes. Every history runs under 2 (quick) or 4 (thorough) seeded hasher layouts. \
+               Fault runs place call, size and depth limits at trip points inside the hash/eq callbacks. Distinct = (collection kind, E, M, op count, layout class).".into(),
+        assumptions: vec![
+            "keys are ints from a universe of 12; the representative key of a class is unspecified and never observed".into(),
+            "a violation aborts the whole evaluation, so 'a failed update leaves the old version intact' is observed as: a complete rerun after reset prints exactly the model's observations".into(),
+        ],
+        opts: SupOpts::default(),
+        required_probes: vec!["histories_checked".into(), "all_keys_collide".into(), "equality_coarser_than_identity".into(), "alternate_layout".into(),
+            "violation_inside_collection_callback".into(), "complete_run_after_violation_matches_model".into()],
+        exhaustive: false,
+        extra: json!({}),
+    }
+}
+
+fn c19(seed: u64, tier: &str, thorough: bool) -> CheckPlan {
+    let mut jobs = vec![];
+    for (li, len) in crate::checks::c19::lengths(thorough).into_iter().enumerate() {
+        let reps = if thorough { 12 } else { 2 };
+        for r in 0..reps {
+            jobs.push(job("C19", "reference", derive(seed, "c19ref", (li * 100 + r) as u64), tier,
+                json!({"len": len, "count": if thorough { 6 } else { 3 }, "poison_max": if thorough { 40 } else { 10 }})));
+            jobs.push(job("C19", "faults", derive(seed, "c19fault", (li * 100 + r) as u64), tier,
+                json!({"len": len, "max_points": if thorough { 400 } else { 60 }})));
+        }
+    }
+    CheckPlan {
+        property: "C19".into(),
+        tier: tier.into(),
+        seed,
+        level: "fault_enumeration".into(),
+        jobs,
+        rule: "One evaluation = one generated program that applies sort, sort_reverse, n_largest, n_smallest, nth_largest, nth_smallest and median with a user comparator (key = value % K, many ties) \
+               to one input of length 0-200 (lengths chosen around the insertion-sort cutoff 20, MIN_RUN 10 and run/merge boundaries; patterns: ascending, descending, sorted-by-key, two runs, almost sorted, sawtooth, shuffled) \
+               and prints results, compared with a harness-side stable sort (element identity for sort/sort_reverse, key sequences for order statistics). Failure injection: the call budget, size limit and depth limit \
+               at trip points inside the comparator (every comparison index for short inputs, thinned to the stated cap for long ones), and a comparator that returns an error value when it sees a poison element, poison swept over positions. \
+               After each failure: outcome is that failure, accounting balances and returns to the pre-call value, the input reads back unchanged, a rerun gives the reference. \
+               Distinct = (length, pattern, n, ok/poison) and (length, pattern, violation kind, refusal site).".into(),
+        assumptions: vec![
+            "only the sorting / failure half of C19 is decided; the algebraic coherence laws of derived eq/hash/cmp/to_str are pure relations and are not applicable to this technique".into(),
+            "memory-safety of the unsafe merge/heap code on failure paths is observed through the accounting model (a lost or duplicated Rc changes the deallocation multiset) and crashes, not through a sanitizer".into(),
+        ],
+        opts: SupOpts::default(),
+        required_probes: vec!["reference_compared".into(), "comparator_error_value_midway".into(), "violation_inside_comparator".into(), "rerun_after_interrupted_sort_matches_reference".into()],
+        exhaustive: false,
+        extra: json!({}),
     }
 }
